@@ -5,7 +5,7 @@
   history / live / heartbeat tasks, interleaved at the granularity of the sync points.
   (Frames removed or expiring during the follow are outside this LTS: C08/C09.)
 -/
-import XsProofs.Follow
+import XsProofs.FollowHandover
 namespace Xs.C03
 open Xs.Follow
 
@@ -76,5 +76,32 @@ theorem nothing_live_during_replay (as : List Act) (s : Sys) (r : Reader) (e : r
     (hr : s.reader = some r) (hh : r.hphase = .scanning) : r.lout = [] := by
   have hR := (run_allInv allInv_init as e).g.inv.rd r hr
   rw [hR.lout_eq, (hR.ph_scan hh).1]; rfl
+
+/-- the history part is complete: once a following reader has handed over, it has delivered
+    every stored frame in its scope with an id up to its cut - nothing that existed when it
+    subscribed was skipped -/
+theorem history_complete_at_handover (as : List Act) (s : Sys) (r : Reader) (e : run {} as = some s)
+    (hr : s.reader = some r) (hh : r.hphase = .handed) :
+    ∃ c, r.cut = some c ∧ r.hout = s.committed.filter (fun f => scanScope r f && decide (f.id ≤ c)) :=
+  Xs.Follow.history_complete_at_handover as s r e hr hh
+
+/-- the whole delivery of an unlimited follow that has caught up (hand-over done, queue drained,
+    not lagged): every stored in-scope frame up to the cut, exactly one threshold, then every
+    in-scope frame broadcast since the subscription - this is the `subscription` the handler
+    model (XsModel/Handler.lean) starts from -/
+theorem caught_up_delivery (as : List Act) (s : Sys) (r : Reader) (e : run {} as = some s)
+    (hr : s.reader = some r) (hh : r.hphase = .handed) (hl : r.opts.limit = none)
+    (hlag : r.lagged = false) (hopen : r.lphase ≠ .ended) (hq : r.queue = []) :
+    ∃ c A B, r.cut = some c ∧ r.out = A ++ [Out.threshold] ++ B ∧ thresholds A = 0 ∧ thresholds B = 0 ∧
+      realFrames A = s.committed.filter (fun f => scanScope r f && decide (f.id ≤ c)) ∧
+      realFrames B = (s.bcast.drop r.subAt).filter (inScope r.opts.ctx) := by
+  obtain ⟨c, hc, hhist⟩ := history_complete_at_handover as s r e hr hh
+  obtain ⟨A, B, ho, hA, hB, hra, hrb⟩ := threshold_once_and_placed as s r e hr hh hl
+  have hfol := ((run_allInv allInv_init as e).p r hr).handed_follow hh
+  refine ⟨c, A, B, hc, ho, hA, hB, by rw [hra, hhist], ?_⟩
+  rw [hrb, live_delivers_all_in_scope as s r e hr hfol]
+  have := live_no_gap as s r e hr hfol hlag hopen
+  rw [hq, List.append_nil] at this
+  rw [this]
 
 end Xs.C03
